@@ -502,7 +502,7 @@ pub fn run(cli: Cli) -> ! {
         for (si, sec) in secrets.iter().enumerate() {
             // complete exploration (every answer sequence, at most one Pending between progress steps)
             let small: Vec<Vec<usize>> = if thorough {
-                vec![vec![1, 2], vec![2, 3], vec![3, 2, 1], vec![5], vec![6, 1], vec![4, 3, 2], vec![7, 2], vec![2, 2, 2, 2]]
+                vec![vec![1, 2], vec![2, 3], vec![3, 2, 1], vec![5], vec![6, 1], vec![4, 3, 2], vec![7, 2], vec![2, 2, 2, 2], vec![8, 1], vec![3, 3, 3], vec![4, 4, 1]]
             } else {
                 vec![vec![1, 2], vec![2, 3], vec![3, 2, 1], vec![5], vec![6, 1]]
             };
@@ -516,7 +516,7 @@ pub fn run(cli: Cli) -> ! {
             }
             // deviation-bounded exploration of longer messages
             let long: Vec<(Vec<usize>, usize)> = if thorough {
-                vec![(vec![17, 5, 40], 3), (vec![40, 17], 3), (vec![5, 17, 5], 3), (vec![30, 30, 30], 2), (vec![200, 3], 2)]
+                vec![(vec![17, 5, 40], 3), (vec![40, 17], 3), (vec![5, 17, 5], 3), (vec![30, 30, 30], 2), (vec![200, 3], 2), (vec![9, 12], 4), (vec![16, 16, 1], 3), (vec![15, 17], 3)]
             } else {
                 vec![(vec![17, 5, 40], 2), (vec![40, 17], 2), (vec![5, 17, 5], 2), (vec![30, 30, 30], 1)]
             };
@@ -558,7 +558,7 @@ pub fn run(cli: Cli) -> ! {
     rep.set("scenarios", json!(jobs.len()));
     rep.set("evaluations", json!(runs));
     rep.set("distinct_nontrivial", json!(runs.saturating_sub(jobs.len() as u64)));
-    rep.set("bounds", json!("messages of <= 7 bytes: every answer sequence (accept any k, deliver any k, Pending, never two Pendings in a row); longer messages: at most 2 (quick) / 3 (thorough) deviations from the default answer"));
+    rep.set("bounds", json!("messages of <= 7 (thorough: 8) bytes: every answer sequence (accept any k, deliver any k, Pending, never two Pendings in a row); longer messages: at most 2 (quick) / 3 and, for one 21-byte pair, 4 (thorough) deviations from the default answer"));
     rep.set("exhaustive", json!(true));
     rep.sample(json!({"scenario": jobs[0].0, "choices": [1], "meaning": "first transport call answered with its first non-default alternative"}));
     rep.sample(json!({"scenario": {"dir": "write", "msgs": [17, 5, 40], "switch": 1}, "choices": [0, 7, 0, 40], "meaning": "second write accepts 7 bytes, ... , last write Pending once"}));
